@@ -417,6 +417,36 @@ func init() {
 		x.stubs["path/filepath.Ext (symbolic model: last dot-suffix of the last '/'-separated element)"] = true
 		return x.mkSym(types.String, ext)
 	}
+	bytesEqual := func(fr *frame, args []value) value {
+		x := fr.i.x
+		ba, aok := args[0].(*blob)
+		bb, bok := args[1].(*blob)
+		if aok != bok {
+			return false // Marshal output / archive vs. other bytes: never equal in the model
+		}
+		if ba == bb {
+			return true
+		}
+		if (ba.zip != nil) != (bb.zip != nil) || ba.prefix != bb.prefix || ba.indent != bb.indent {
+			return false
+		}
+		if ba.zip != nil {
+			return ba.zip == bb.zip
+		}
+		if ba.typ == nil || bb.typ == nil || !types.Identical(ba.typ, bb.typ) {
+			return false
+		}
+		// same marshaller input => same bytes (encoding/xml is a function of the value)
+		return x.deepEq(ba.snap, bb.snap, map[[2]*value]bool{}, 0)
+	}
+	externals["bytes.Equal"] = func(fr *frame, args []value) value {
+		_, aok := args[0].(*blob)
+		_, bok := args[1].(*blob)
+		if aok || bok {
+			return bytesEqual(fr, args)
+		}
+		return callNativeByName(fr, "bytes.Equal", args)
+	}
 	symModels["bytes.Equal"] = func(fr *frame, args []value) value {
 		x := fr.i.x
 		a, b := x.bytesTerm(args[0]), x.bytesTerm(args[1])
